@@ -5,100 +5,120 @@ from __future__ import annotations
 import ast
 
 from .. import cfg as cfgmod
-from ..core import AnalysisError, U, body_walk, call_name, last_attr, try_const
 from ..bytelayout import int_weights, layout
+from ..core import AnalysisError, U, body_walk, call_name, last_attr, try_const
 from ..linear import Lin, lin
 from ..selftest import M, T
 
 EXPLANATION = (
-    "framing agreement between IWACompressedChunk.to_buffer, _decompress_all and is_iwa_file (marker byte, header size, "
-    "3-byte little-endian length, advance), slice-pair consumption of the chunker and of the message splitter, order of "
-    "length refresh vs header serialisation, and decoding over the join of all chunks"
+    "framing agreement between IWACompressedChunk.to_buffer, _decompress_all and is_iwa_file, read through an abstract "
+    "byte layout (which header byte carries which byte of the payload length) and linear forms of every slice bound; "
+    "slice-pair consumption of the chunker and of the message splitter; symbolic straight-line evaluation of the header "
+    "cursor; order of length refresh vs header serialisation; symbolic sequence of the emitted segment; decoding over the "
+    "join of all chunks"
 )
-TRUSTED = ["python ast", "linear forms", "protobuf/snappy runtime behaviour (byte identity of re-serialisation is not decided)"]
+TRUSTED = ["python ast", "linear forms", "abstract byte layout of pack/unpack/to_bytes/from_bytes", "protobuf/snappy runtime behaviour (byte identity of re-serialisation is not decided)"]
 
 MAX_CHUNK = 65536
+HEADER = 4
 
 
 def _eq(a, b):
     return a is not None and b is not None and (a - b).is_const() and (a - b).c == 0
 
 
-def parse_frame_reader(repo, rep, qual, rule="C05.R1"):
-    """Facts about one of the two sibling frame parsers (``_decompress_all`` / ``is_iwa_file``)."""
+def _canon(l, aliases):
+    """Replace alias symbols (locals assigned from the length expression) by the canonical symbol LEN."""
+    if l is None:
+        return None
+    out = l
+    for a in aliases:
+        if a in out.t:
+            out = out.subst(a, Lin(0, {"LEN": 1}))
+    return out
+
+
+def frame_reader(repo, qual):
+    """Facts about one of the two sibling frame parsers."""
     f = repo.func("iwafile.py", qual)
-    info = {"func": f}
+    env = repo.consts
     data = f.args.args[-1].arg
     loops = [n for n in body_walk(f) if isinstance(n, ast.While) and U(n.test) == data]
     if not loops:
         raise AnalysisError(f"{qual}: `while {data}:` loop not found")
     loop = loops[0]
-    hdr = None
-    for n in loop.body:
+    info = {"func": f, "loop": loop}
+    hname = hsize = None
+    for n in ast.walk(loop):
         if isinstance(n, ast.Assign) and isinstance(n.value, ast.Subscript) and U(n.value.value) == data and isinstance(n.value.slice, ast.Slice):
             sl = n.value.slice
-            if sl.lower is None and sl.upper is not None and hdr is None:
-                hdr = (U(n.targets[0]), try_const(sl.upper), n)
-    if hdr is None:
-        raise AnalysisError(f"{qual}: header slice not found")
-    hname, hsize, hnode = hdr
-    info["header_size"] = hsize
-    # marker test
+            if sl.lower is None and sl.upper is not None and hname is None:
+                hname, hsize = U(n.targets[0]), try_const(sl.upper, env)
+                info["header_node"] = n
+    if hname is None:
+        raise AnalysisError(f"{qual}: header slice `x = {data}[:4]` not found")
+    info["hname"], info["header_size"] = hname, hsize
+    src_lens = {hname: hsize if isinstance(hsize, int) else HEADER}
+    locals_ = {}
+    for n in ast.walk(loop):
+        if isinstance(n, ast.Assign) and isinstance(n.targets[0], ast.Name):
+            locals_[n.targets[0].id] = n.value
     marker = None
     for n in ast.walk(loop):
-        if isinstance(n, ast.Compare) and isinstance(n.ops[0], ast.NotEq) and isinstance(try_const(n.comparators[0]), int):
+        if isinstance(n, ast.Compare) and len(n.ops) == 1 and isinstance(n.ops[0], (ast.NotEq, ast.Eq)):
+            c = try_const(n.comparators[0], env)
             left = n.left
-            if U(left) == f"{hname}[0]":
-                marker = try_const(n.comparators[0])
-            else:
-                # via a local: first_byte = header[0]
-                for a in loop.body:
-                    if isinstance(a, ast.Assign) and U(a.targets[0]) == U(left) and U(a.value) == f"{hname}[0]":
-                        marker = try_const(n.comparators[0])
+            if isinstance(left, ast.Name) and left.id in locals_:
+                left = locals_[left.id]
+            if isinstance(c, int) and not isinstance(c, bool) and U(left) == f"{hname}[0]":
+                marker = c
+                info["marker_node"] = n
     info["marker"] = marker
-    # length decode
-    length_var = None
-    for n in loop.body:
-        if isinstance(n, ast.Assign) and int_weights(n.value, None, {hname: hsize if isinstance(hsize, int) else 4}) is not None \
-                and not (isinstance(n.value, ast.Subscript) and isinstance(n.value.value, ast.Call) and last_attr(n.value.value.func) == "unpack"):
-            length_var = U(n.targets[0])
-            info["len_node"] = n
-            info["weights"] = int_weights(n.value, None, {hname: hsize if isinstance(hsize, int) else 4})
-            info["hname"] = hname
-        if isinstance(n, ast.Assign) and isinstance(n.value, ast.Subscript) and isinstance(n.value.value, ast.Call) and last_attr(n.value.value.func) == "unpack":
-            call = n.value.value
-            fmt = try_const(call.args[0])
-            arg = call.args[1]
-            info["len_fmt"] = fmt
-            pad_side = None
-            src = None
-            if isinstance(arg, ast.BinOp) and isinstance(arg.op, ast.Add):
-                l, r = arg.left, arg.right
-                if isinstance(try_const(r), bytes):
-                    pad_side, pad, src = "high-after", try_const(r), l
-                elif isinstance(try_const(l), bytes):
-                    pad_side, pad, src = "before", try_const(l), r
-                info["pad"] = pad
-            info["pad_side"] = pad_side
-            if isinstance(src, ast.Call) and call_name(src) in ("bytes", "bytearray"):
-                src = src.args[0]
-            info["len_src"] = U(src) if src is not None else None
-            info["len_index"] = try_const(n.value.slice)
-            length_var = U(n.targets[0])
-            info["len_node"] = n
-            info["weights"] = int_weights(n.value, None, {hname: hsize if isinstance(hsize, int) else 4})
-            info["hname"] = hname
-    info["length_var"] = length_var
-    # chunk slice and advance
-    for n in loop.body:
-        if isinstance(n, ast.Assign) and isinstance(n.value, ast.Subscript) and U(n.value.value) == data and isinstance(n.value.slice, ast.Slice):
-            sl = n.value.slice
-            if sl.lower is not None and sl.upper is not None:
-                info["chunk"] = (lin(sl.lower), lin(sl.upper), n)
-            if sl.lower is not None and sl.upper is None and U(n.targets[0]) == data:
-                info["advance"] = (lin(sl.lower), n)
-    return info
+    length_expr = None
+    for n in ast.walk(loop):
+        if isinstance(n, (ast.Subscript, ast.Call)) and int_weights(n, env, src_lens) is not None:
+            if length_expr is None or any(length_expr is x for x in ast.walk(n)):
+                length_expr = n
+    if length_expr is None:
+        raise AnalysisError(f"{qual}: payload length decode not recognised")
+    info["length_expr"] = length_expr
+    info["weights"] = int_weights(length_expr, env, src_lens)
+    ltxt = U(length_expr)
+    aliases = {ltxt}
+    for name, val in locals_.items():
+        if U(val) == ltxt:
+            aliases.add(name)
+    info["aliases"] = aliases
 
+    def L(e):
+        return _canon(lin(e, env), aliases)
+
+    def expand(l):
+        if l is None:
+            return None
+        for _ in range(3):
+            for sym in list(l.t):
+                if sym in locals_ and sym not in aliases:
+                    d = L(locals_[sym])
+                    if d is not None and sym not in d.t:
+                        l = l.subst(sym, d)
+        return l
+
+    info["chunk"] = info["advance"] = None
+    for n in ast.walk(loop):
+        if isinstance(n, ast.Subscript) and U(n.value) == data and isinstance(n.slice, ast.Slice):
+            sl = n.slice
+            if sl.lower is not None and sl.upper is not None:
+                info["chunk"] = (expand(L(sl.lower)), expand(L(sl.upper)), n)
+            elif sl.lower is not None and sl.upper is None:
+                par = getattr(n, "_parent", None)
+                if isinstance(par, ast.Assign) and U(par.targets[0]) == data:
+                    info["advance"] = (expand(L(sl.lower)), n)
+    info["acc"] = []
+    for n in ast.walk(loop):
+        if isinstance(n, ast.AugAssign) and isinstance(n.op, ast.Add) and U(n.target) != data:
+            info["acc"].append((U(n.target), expand(L(n.value)), n))
+    return info
 
 
 def chunker_facts(tb, env):
@@ -124,7 +144,6 @@ def chunker_facts(tb, env):
         if not reassigned:
             out["why"] = "the remainder is not assigned back to the loop variable"
         return out
-    # range-based shapes
     for n in body_walk(tb):
         gens = []
         if isinstance(n, (ast.ListComp, ast.GeneratorExp)):
@@ -154,31 +173,120 @@ def chunker_facts(tb, env):
     raise AnalysisError("IWACompressedChunk.to_buffer: chunking of the stream not recognised")
 
 
+def joined_sequence(func, expr):
+    """Symbolic element sequence of a ``b"".join(X)`` argument: item texts and ("each", elt, iterable) entries."""
+
+    def seq(e):
+        if isinstance(e, (ast.List, ast.Tuple)):
+            return [U(x) for x in e.elts]
+        if isinstance(e, ast.BinOp) and isinstance(e.op, ast.Add):
+            a, b = seq(e.left), seq(e.right)
+            return None if a is None or b is None else a + b
+        if isinstance(e, (ast.ListComp, ast.GeneratorExp)) and len(e.generators) == 1 and not e.generators[0].ifs:
+            g = e.generators[0]
+            if isinstance(g.target, ast.Name):
+                return [("each", _rename(e.elt, g.target.id), U(g.iter))]
+            return None
+        if isinstance(e, ast.Name):
+            items = None
+            for st in func.body:
+                if isinstance(st, ast.Assign) and U(st.targets[0]) == e.id:
+                    items = seq(st.value)
+                elif items is not None and isinstance(st, ast.For) and isinstance(st.target, ast.Name):
+                    for c in ast.walk(st):
+                        if isinstance(c, ast.Call) and last_attr(c.func) == "append" and U(c.func.value) == e.id and len(c.args) == 1:
+                            if any(isinstance(x, (ast.If, ast.Continue, ast.Break)) for x in ast.walk(st)):
+                                return None
+                            items.append(("each", _rename(c.args[0], st.target.id), U(st.iter)))
+                elif items is not None and isinstance(st, ast.Expr) and isinstance(st.value, ast.Call) and last_attr(st.value.func) in ("append", "extend") \
+                        and U(st.value.func.value) == e.id:
+                    if last_attr(st.value.func) == "append":
+                        items.append(U(st.value.args[0]))
+                    else:
+                        sub = seq(st.value.args[0])
+                        if sub is None:
+                            return None
+                        items += sub
+            return items
+        return None
+
+    return seq(expr)
+
+
+def _rename(expr, var):
+    """Text of ``expr`` with the loop variable renamed to ``_``."""
+    import copy
+
+    e = copy.deepcopy(expr)
+    for n in ast.walk(e):
+        if isinstance(n, ast.Name) and n.id == var:
+            n.id = "_"
+    return U(e)
+
+
+def _symbolic_cursor(func, env, want_slice):
+    """Straight-line symbolic evaluation of the top-level statements of ``func``.
+    Returns (state at the statement containing ``want_slice``, final state)."""
+    cur = {}
+    at = None
+    for st in func.body:
+        if want_slice is not None and at is None and any(want_slice is x for x in ast.walk(st)):
+            at = dict(cur)
+        if isinstance(st, ast.Assign) and len(st.targets) == 1:
+            t = st.targets[0]
+            if isinstance(t, ast.Name):
+                l = lin(st.value, env)
+                if l is not None:
+                    for s, v in cur.items():
+                        if s in l.t:
+                            l = l.subst(s, v)
+                    cur[t.id] = l
+            elif isinstance(t, ast.Tuple) and isinstance(st.value, ast.Call) and last_attr(st.value.func) == "_DecodeVarint32" and len(t.elts) == 2:
+                cur[U(t.elts[0])] = Lin(0, {"VARINT_VALUE": 1})
+                cur[U(t.elts[1])] = Lin(0, {"VARINT_END": 1})
+        elif isinstance(st, ast.AugAssign) and isinstance(st.target, ast.Name) and st.target.id in cur and isinstance(st.op, (ast.Add, ast.Sub)):
+            l = lin(st.value, env)
+            if l is not None:
+                for s, v in cur.items():
+                    if s in l.t:
+                        l = l.subst(s, v)
+                cur[st.target.id] = cur[st.target.id] + l if isinstance(st.op, ast.Add) else cur[st.target.id] - l
+    return at if at is not None else dict(cur), cur
+
+
+def _subst_all(l, state):
+    if l is None:
+        return None
+    for s, v in state.items():
+        if s in l.t:
+            l = l.subst(s, v)
+    return l
+
+
 def run(repo, rep, tier):
+    env = repo.consts
     # ---------------- writer
     tb = repo.func("iwafile.py", "IWACompressedChunk.to_buffer")
-    w = {}
-    # frame expression: <4 header bytes> + payload, read through the abstract byte layout
-    frame = None
     chains = []
     for n in ast.walk(tb):
         if isinstance(n, ast.BinOp) and isinstance(n.op, ast.Add) and not (isinstance(getattr(n, "_parent", None), ast.BinOp) and isinstance(n._parent.op, ast.Add)):
             ops = []
+
             def flat(e):
                 if isinstance(e, ast.BinOp) and isinstance(e.op, ast.Add):
                     flat(e.left)
                     flat(e.right)
                 else:
                     ops.append(e)
+
             flat(n)
             chains.append((n, ops))
-    hdr_layout = None
-    payload = None
+    frame = hdr_layout = payload = None
     for n, ops in chains:
         if len(ops) >= 2 and isinstance(ops[-1], ast.Name):
             lay = []
             for o in ops[:-1]:
-                l = layout(o, repo.consts)
+                l = layout(o, env)
                 if l is None:
                     lay = None
                     break
@@ -187,153 +295,198 @@ def run(repo, rep, tier):
                 frame, hdr_layout, payload = n, lay, ops[-1]
     if frame is None:
         raise AnalysisError("IWACompressedChunk.to_buffer: frame expression `<header bytes> + payload` not found")
-    L = f"len({U(payload)})"
-    want = [("const", 0), ("int", L, 0), ("int", L, 1), ("int", L, 2)]
-    marker = bytes([hdr_layout[0][1]]) if hdr_layout and hdr_layout[0][0] == "const" else None
+    Ltxt = f"len({U(payload)})"
+    want = [("const", 0), ("int", Ltxt, 0), ("int", Ltxt, 1), ("int", Ltxt, 2)]
+    marker = hdr_layout[0][1] if hdr_layout and hdr_layout[0][0] == "const" else None
     okw = hdr_layout == want
     rep.ob("C05.R1", frame, f"writer frame header bytes {hdr_layout} + {U(payload)}", okw,
-           "" if okw else f"the 4 header bytes must be marker 0x00 followed by the low 3 bytes of {L}, little-endian; found {hdr_layout}: "
+           "" if okw else f"the 4 header bytes must be marker 0x00 followed by the low 3 bytes of {Ltxt}, little-endian; found {hdr_layout}: "
            "payloads whose length does not fit the field written are framed with a wrong length", key="C05.R1@writer:frame")
-    wfmt = "<I"
     # ---------------- readers
     readers = {}
     for qual in ("IWACompressedChunk._decompress_all", "is_iwa_file"):
-        r = parse_frame_reader(repo, rep, qual)
+        r = frame_reader(repo, qual)
         readers[qual] = r
         f = r["func"]
         short = qual.split(".")[-1]
-        ok = r["header_size"] == 4
-        rep.ob("C05.R1", f, f"{short}: header is 4 bytes", ok, f"header slice is [:{r['header_size']}]", key=f"C05.R1@{short}:header-size")
-        ok = r["marker"] is not None and bytes([r["marker"]]) == marker
-        rep.ob("C05.R1", f, f"{short}: marker byte {r['marker']} equals the writer's {marker!r}", ok, "", key=f"C05.R1@{short}:marker")
-        hname = r.get("hname")
-        wts = r.get("weights")
+        ok = r["header_size"] == HEADER
+        rep.ob("C05.R1", r.get("header_node", f), f"{short}: header is 4 bytes", ok, f"header slice is [:{r['header_size']}]", key=f"C05.R1@{short}:header-size")
+        ok = r["marker"] is not None and r["marker"] == marker
+        rep.ob("C05.R1", r.get("marker_node", f), f"{short}: marker byte {r['marker']} equals the writer's {marker}", ok, "", key=f"C05.R1@{short}:marker")
+        hname = r["hname"]
         want_w = {("src", hname, 1): 1, ("src", hname, 2): 256, ("src", hname, 3): 65536}
-        ok = wts == want_w
-        rep.ob("C05.R1", r.get("len_node", f), f"{short}: length = header[1] + header[2]<<8 + header[3]<<16", ok,
-               "" if ok else f"reader decodes the length with byte weights {wts}: disagrees with the writer's 3-byte little-endian length",
+        ok = r["weights"] == want_w
+        rep.ob("C05.R1", r["length_expr"], f"{short}: length = header[1] + header[2]<<8 + header[3]<<16", ok,
+               "" if ok else f"reader decodes the length with byte weights {r['weights']}: disagrees with the writer's 3-byte little-endian length",
                key=f"C05.R1@{short}:length-decode")
-        H = Lin(r["header_size"] or 0)
-        L = Lin(0, {r["length_var"]: 1}) if r["length_var"] else None
-        if "chunk" in r:
+        H = Lin(HEADER)
+        LEN = Lin(0, {"LEN": 1})
+        if r["chunk"] is not None:
             lo, hi, node = r["chunk"]
-            ok = _eq(lo, H) and _eq(hi, H + L)
-            rep.ob("C05.R1", node, f"{short}: payload is data[4 : 4 + length]", ok, "" if ok else "payload slice does not start after the header or is not `length` long", key=f"C05.R1@{short}:payload-slice")
-        if "advance" in r:
+            ok = _eq(lo, H) and _eq(hi, H + LEN)
+            rep.ob("C05.R1", node, f"{short}: payload is data[4 : 4 + length]", ok, "" if ok else f"payload slice is [{lo} : {hi}] (as `>= 0` forms): not the `length` bytes after the header", key=f"C05.R1@{short}:payload-slice")
+        elif short == "_decompress_all":
+            rep.ob("C05.R1", f, f"{short}: payload is data[4 : 4 + length]", False, "payload slice not found", key=f"C05.R1@{short}:payload-slice")
+        if r["advance"] is not None:
             lo, node = r["advance"]
-            ok = _eq(lo, H + L)
-            rep.ob("C05.R1", node, f"{short}: advances by 4 + length", ok, "" if ok else "the next frame is looked for at the wrong offset", key=f"C05.R1@{short}:advance")
+            ok = _eq(lo, H + LEN)
+            rep.ob("C05.R1", node, f"{short}: advances by 4 + length", ok, "" if ok else f"the next frame is looked for at {lo} (as a `>= 0` form)", key=f"C05.R1@{short}:advance")
         else:
             rep.ob("C05.R1", f, f"{short}: advances by 4 + length", False, "advance not found", key=f"C05.R1@{short}:advance")
-    # sniffer accounting
-    sn = readers["is_iwa_file"]["func"]
-    src = U(sn)
-    acc = [n for n in body_walk(sn) if isinstance(n, ast.AugAssign) and isinstance(n.op, ast.Add)]
-    ok = False
-    for a in acc:
-        l = lin(a.value)
-        ok = ok or _eq(l, Lin(4, {readers["is_iwa_file"]["length_var"]: 1}))
-    ret = [n for n in body_walk(sn) if isinstance(n, ast.Return) and isinstance(n.value, ast.Compare)]
+    sn = readers["is_iwa_file"]
+    ok = any(_eq(v, Lin(HEADER, {"LEN": 1})) for _, v, _ in sn["acc"])
+    ret = [n for n in body_walk(sn["func"]) if isinstance(n, ast.Return) and isinstance(n.value, ast.Compare)]
     ok = ok and bool(ret) and isinstance(ret[0].value.ops[0], ast.Eq)
-    rep.ob("C05.R1", sn, "is_iwa_file: total of (4 + length) over frames equals the data length", ok, "", key="C05.R1@is_iwa_file:total")
-    guard = [n for n in body_walk(sn) if isinstance(n, ast.If) and "len(header)" in U(n.test)]
-    rep.info("C05.info", f"is_iwa_file short-header guard: {[U(g.test) for g in guard]}")
+    rep.ob("C05.R1", sn["func"], "is_iwa_file: total of (4 + length) over frames equals the data length", ok, "", key="C05.R1@is_iwa_file:total")
 
     # ---------------- R2 chunker
-    ch = chunker_facts(tb, repo.consts)
+    ch = chunker_facts(tb, env)
     ok = ch["emit"] is not None and ch["emit"] == ch["advance"] and ch["covers"]
     rep.ob("C05.R2", ch["node"], f"chunker ({ch['shape']}) emits {ch['emit']} bytes per chunk and advances by {ch['advance']}; covers the stream: {ch['covers']}", ok,
            "" if ok else ch["why"] or "emitted slice and advance differ: bytes are dropped or duplicated at every chunk boundary", key="C05.R2@chunker:consume")
     ok = isinstance(ch["emit"], int) and 0 < ch["emit"] <= MAX_CHUNK
     rep.ob("C05.R2", ch["node"], f"chunk payload <= {MAX_CHUNK} bytes", ok, "" if ok else f"chunk size {ch['emit']} exceeds the 64 KiB container rule (and may overflow the 3-byte length)", key="C05.R2@chunker:max")
-    ok = ch["ordered"]
-    rep.ob("C05.R2", ch["node"], "chunks emitted in stream order, each compressed separately", ok, "", key="C05.R2@chunker:order")
-    ok = "b''.join([archive.to_buffer() for archive in self.archives])" in U(tb)
-    rep.ob("C05.R2", tb, "stream = join of archive buffers in order", ok, "", key="C05.R2@stream:join")
+    rep.ob("C05.R2", ch["node"], "chunks emitted in stream order, each compressed separately", ch["ordered"], "", key="C05.R2@chunker:order")
+    stream = None
+    for st in tb.body:
+        if isinstance(st, ast.Assign) and isinstance(st.value, ast.Call) and last_attr(st.value.func) == "join" and try_const(st.value.func.value) == b"":
+            s = joined_sequence(tb, st.value.args[0])
+            if s == [("each", "_.to_buffer()", "self.archives")]:
+                stream = st
+    rep.ob("C05.R2", stream or tb, "stream = join of archive buffers in order", stream is not None, "", key="C05.R2@stream:join")
 
     # ---------------- R3 header lengths refreshed before the header is serialised
     sb = repo.func("iwafile.py", "IWAArchiveSegment.to_buffer")
     g = cfgmod.build(sb)
-    floop = [n for n in body_walk(sb) if isinstance(n, ast.For)]
-    ok = False
-    store = None
-    pair_ok = False
-    if floop:
-        lp = floop[0]
-        it = U(lp.iter).replace(" ", "")
-        pair_ok = it == "zip(self.objects,self.header.message_infos)"
-        tg = [U(e) for e in lp.target.elts] if isinstance(lp.target, ast.Tuple) else []
-        for n in ast.walk(lp):
-            if isinstance(n, ast.Assign) and U(n.targets[0]).endswith(".length") and len(tg) == 2 and U(n.targets[0]) == f"{tg[1]}.length":
+    ok = pair_ok = False
+    store = lp = None
+    for cand in [n for n in body_walk(sb) if isinstance(n, ast.For)]:
+        it = U(cand.iter).replace(" ", "")
+        tg = [U(e) for e in cand.target.elts] if isinstance(cand.target, ast.Tuple) else []
+        order = {"zip(self.objects,self.header.message_infos)": (0, 1), "zip(self.header.message_infos,self.objects)": (1, 0)}.get(it)
+        if order is None or len(tg) != 2:
+            continue
+        lp, pair_ok = cand, True
+        obj, info = tg[order[0]], tg[order[1]]
+        for n in ast.walk(cand):
+            if isinstance(n, ast.Assign) and U(n.targets[0]) == f"{info}.length":
                 store = n
-        # the stored value is the serialised size of the paired object
         if store is not None:
             v = U(store.value)
-            defs = {U(a.targets[0]): U(a.value) for a in ast.walk(lp) if isinstance(a, ast.Assign)}
+            defs = {U(a.targets[0]): U(a.value) for a in ast.walk(cand) if isinstance(a, ast.Assign)}
             v = defs.get(v, v)
-            ok = v.replace(" ", "") in (f"len({tg[0]}.SerializeToString())", f"{tg[0]}.ByteSize()")
-    rep.ob("C05.R3", floop[0] if floop else sb, "message_info.length := serialised size of the paired object", ok and pair_ok,
+            ok = v.replace(" ", "") in (f"len({obj}.SerializeToString())", f"{obj}.ByteSize()")
+    rep.ob("C05.R3", lp or sb, "message_info.length := serialised size of the paired object", ok and pair_ok,
            "" if ok and pair_ok else "lengths are not refreshed from the objects, or objects and message_infos are not paired positionally", key="C05.R3@lengths:refresh")
+    if store is not None:
+        conds = [U(p.test).replace(" ", "") for p in _anc(store, lp) if isinstance(p, ast.If)]
+        ok = all(("!=" in c and "length" in c) for c in conds)
+        rep.ob("C05.R3", store, f"length refresh is unconditional or guarded only by `length differs` ({conds})", ok,
+               "" if ok else "a stale length survives when the condition does not hold (for example only when the object grew)", key="C05.R3@lengths:condition")
     hdr_ser = [n for n in body_walk(sb) if isinstance(n, ast.Call) and U(n.func) == "self.header.SerializeToString"]
-    ok = bool(hdr_ser) and store is not None and all(cfgmod.precedes_on_all_paths(sb, [floop[0]], h) for h in hdr_ser) and \
+    ok = bool(hdr_ser) and store is not None and lp is not None and all(cfgmod.precedes_on_all_paths(sb, [lp], h) for h in hdr_ser) and \
         not any(g.paths_avoiding(g.node_of(h), g.node_of(store), set()) for h in hdr_ser if g.node_of(h) != g.node_of(store))
     rep.ob("C05.R3", hdr_ser[0] if hdr_ser else sb, "header serialised after the lengths are refreshed", ok,
            "" if ok else "a stale message length is written into the header", key="C05.R3@lengths:before-header")
-    ret = [n for n in body_walk(sb) if isinstance(n, ast.Return)]
-    rs = U(ret[-1].value).replace(" ", "") if ret else ""
-    ok = rs == "b''.join([_VarintBytes(self.header.ByteSize()),self.header.SerializeToString()]+[obj.SerializeToString()forobjinself.objects])"
-    rep.ob("C05.R3", ret[-1] if ret else sb, "segment = varint(header size) + header + objects in order", ok, "" if ok else f"found `{rs[:120]}`", key="C05.R3@segment:layout")
+    ret = [n for n in body_walk(sb) if isinstance(n, ast.Return) and n.value is not None]
+    seqv = None
+    if ret and isinstance(ret[-1].value, ast.Call) and last_attr(ret[-1].value.func) == "join" and try_const(ret[-1].value.func.value) == b"":
+        seqv = joined_sequence(sb, ret[-1].value.args[0])
+    want_seq = ["_VarintBytes(self.header.ByteSize())", "self.header.SerializeToString()", ("each", "_.SerializeToString()", "self.objects")]
+    ok = seqv == want_seq
+    rep.ob("C05.R3", ret[-1] if ret else sb, "segment = varint(header size) + header + objects in order", ok, "" if ok else f"emitted sequence is {seqv}", key="C05.R3@segment:layout")
 
     # ---------------- R4 chunk-boundary independence
     fb = repo.func("iwafile.py", "IWACompressedChunk.from_buffer")
-    src = U(fb).replace(" ", "")
-    ok = "data=b''.join(cls._decompress_all(data))" in src
-    rep.ob("C05.R4", fb, "segments are parsed from the join of all decompressed chunks", ok,
+    data = fb.args.args[1].arg
+    joined = [n for n in body_walk(fb) if isinstance(n, ast.Assign) and isinstance(n.value, ast.Call) and last_attr(n.value.func) == "join"
+              and try_const(n.value.func.value) == b"" and n.value.args and "_decompress_all(" in U(n.value.args[0])]
+    ok = bool(joined)
+    rep.ob("C05.R4", joined[0] if joined else fb, "segments are parsed from the join of all decompressed chunks", ok,
            "" if ok else "parsing a single chunk makes the result depend on where the stream was cut", key="C05.R4@join")
+    jvar = U(joined[0].targets[0]) if joined else data
     loops = [n for n in body_walk(fb) if isinstance(n, ast.While)]
-    ok = bool(loops) and U(loops[0].test) == "data" and any(
-        isinstance(n, ast.Assign) and U(n.targets[0]).replace(" ", "") in ("(archive,data)", "archive,data") and "IWAArchiveSegment.from_buffer(data" in U(n.value) for n in loops[0].body)
+    ok = bool(loops) and U(loops[0].test) == jvar and any(
+        isinstance(n, ast.Assign) and isinstance(n.targets[0], ast.Tuple) and len(n.targets[0].elts) == 2 and U(n.targets[0].elts[1]) == jvar
+        and isinstance(n.value, ast.Call) and U(n.value.func) == "IWAArchiveSegment.from_buffer" and U(n.value.args[0]) == jvar for n in loops[0].body)
     rep.ob("C05.R4", fb, "segment loop continues on the remainder until the stream is empty", ok, "", key="C05.R4@segment-loop")
     sfb = repo.func("iwafile.py", "IWAArchiveSegment.from_buffer")
-    # message slicing: payload[n : n + L]; n += L; return payload[n:]
     sl = [n for n in body_walk(sfb) if isinstance(n, ast.Subscript) and isinstance(n.slice, ast.Slice) and n.slice.lower is not None and n.slice.upper is not None]
     inc = [n for n in body_walk(sfb) if isinstance(n, ast.AugAssign) and isinstance(n.op, ast.Add)]
     ok = False
     if sl and inc:
-        lo, hi = lin(sl[0].slice.lower), lin(sl[0].slice.upper)
+        lo, hi = lin(sl[0].slice.lower, env), lin(sl[0].slice.upper, env)
         cnt = U(inc[0].target)
-        L = lin(inc[0].value)
-        ok = _eq(lo, Lin(0, {cnt: 1})) and _eq(hi - lo, L) and "message_info.length" in U(inc[0].value)
-        # the increment is outside any try/except that could skip it and inside the loop
+        Lm = lin(inc[0].value, env)
+        ok = _eq(lo, Lin(0, {cnt: 1})) and _eq(hi - lo, Lm) and U(inc[0].value).endswith(".length")
         ok = ok and isinstance(getattr(inc[0], "_parent", None), ast.For)
     rep.ob("C05.R4", sl[0] if sl else sfb, "messages are cut as payload[n : n + length] and n advances by the same length", ok,
            "" if ok else "a message is cut with a different length than the cursor advances by", key="C05.R4@messages:cut")
-    ret = [n for n in body_walk(sfb) if isinstance(n, ast.Return)]
-    ok = bool(ret) and U(ret[-1].value).replace(" ", "") == "(cls(archive_info,payloads),payload[n:])"
-    rep.ob("C05.R4", ret[-1] if ret else sfb, "segment parser returns the unconsumed remainder payload[n:]", ok, "", key="C05.R4@messages:remainder")
-    init0 = any(isinstance(n, ast.Assign) and U(n.targets[0]) == "n" and try_const(n.value) == 0 for n in body_walk(sfb))
+    ret = [n for n in body_walk(sfb) if isinstance(n, ast.Return) and isinstance(n.value, ast.Tuple) and len(n.value.elts) == 2]
+    ok = False
+    if ret and inc and sl:
+        rem = ret[-1].value.elts[1]
+        ok = isinstance(rem, ast.Subscript) and isinstance(rem.slice, ast.Slice) and rem.slice.upper is None and rem.slice.lower is not None \
+            and U(rem.slice.lower) == U(inc[0].target) and U(rem.value) == U(sl[0].value)
+    rep.ob("C05.R4", ret[-1] if ret else sfb, "segment parser returns the unconsumed remainder payload[n:]", bool(ok), "", key="C05.R4@messages:remainder")
+    init0 = bool(inc) and any(isinstance(n, ast.Assign) and U(n.targets[0]) == U(inc[0].target) and try_const(n.value) == 0 for n in body_walk(sfb))
     rep.ob("C05.R4", sfb, "message cursor starts at 0", init0, "", key="C05.R4@messages:start")
-    ok = "for message_info in archive_info.message_infos" in U(sfb)
+    ok = any(isinstance(n, ast.For) and U(n.iter).endswith(".message_infos") and inc and any(inc[0] is x for x in n.body) for n in body_walk(sfb))
     rep.ob("C05.R4", sfb, "one message per message_info in header order", ok, "", key="C05.R4@messages:order")
     gi = repo.func("iwafile.py", "get_archive_info_and_remainder")
-    s = U(gi).replace(" ", "")
-    ok = "(msg_len,new_pos)=_DecodeVarint32(buf,0)" in s.replace("msg_len,new_pos=", "(msg_len,new_pos)=") and "msg_buf=buf[n:n+msg_len]" in s and "n=new_pos" in s \
-        and "n+=msg_len" in s and "return(ArchiveInfo.FromString(msg_buf),buf[n:])" in s.replace("returnArchiveInfo.FromString(msg_buf),buf[n:]", "return(ArchiveInfo.FromString(msg_buf),buf[n:])")
-    rep.ob("C05.R4", gi, "header = buf[pos : pos + varint] and remainder starts right after it", ok, "", key="C05.R4@header:cut")
+    rets = [n for n in gi.body if isinstance(n, ast.Return) and isinstance(n.value, ast.Tuple) and len(n.value.elts) == 2]
+    ok = False
+    detail = "return (ArchiveInfo.FromString(buf[a:b]), buf[c:]) not found"
+    if rets:
+        first, second = rets[0].value.elts
+        hs = None
+        for x in ast.walk(first):
+            if isinstance(x, ast.Subscript) and isinstance(x.slice, ast.Slice) and x.slice.lower is not None and x.slice.upper is not None:
+                hs = x
+        if hs is None:
+            for x in ast.walk(first):
+                if isinstance(x, ast.Name):
+                    for st in gi.body:
+                        if isinstance(st, ast.Assign) and U(st.targets[0]) == x.id and isinstance(st.value, ast.Subscript) and isinstance(st.value.slice, ast.Slice) \
+                                and st.value.slice.lower is not None and st.value.slice.upper is not None:
+                            hs = st.value
+        at, final = _symbolic_cursor(gi, env, hs)
+        a = _subst_all(lin(hs.slice.lower, env), at) if hs is not None else None
+        b = _subst_all(lin(hs.slice.upper, env), at) if hs is not None else None
+        c = None
+        if isinstance(second, ast.Subscript) and isinstance(second.slice, ast.Slice) and second.slice.upper is None and second.slice.lower is not None:
+            c = _subst_all(lin(second.slice.lower, env), final)
+        VE, VV = Lin(0, {"VARINT_END": 1}), Lin(0, {"VARINT_VALUE": 1})
+        dec = [x for x in ast.walk(gi) if isinstance(x, ast.Call) and last_attr(x.func) == "_DecodeVarint32"]
+        ok = _eq(a, VE) and _eq(b, VE + VV) and _eq(c, VE + VV) and "FromString" in U(first) and bool(dec) and len(dec[0].args) == 2 and try_const(dec[0].args[1]) == 0
+        detail = "" if ok else f"header cut [{a} : {b}], remainder from {c} (VARINT_END = position after the varint, VARINT_VALUE = its value)"
+    rep.ob("C05.R4", gi, "header = buf[pos : pos + varint] and remainder starts right after it", ok, detail, key="C05.R4@header:cut")
     ffb = repo.func("iwafile.py", "IWAFile.from_buffer")
-    s = U(ffb).replace(" ", "")
-    ok = "whiledata:" in s and "IWACompressedChunk.from_buffer(data,filename)" in s and "chunks.append(chunk)" in s
+    fdata = ffb.args.args[1].arg
+    wl = [n for n in body_walk(ffb) if isinstance(n, ast.While) and U(n.test) == fdata]
+    ok = bool(wl) and any(isinstance(n, ast.Assign) and isinstance(n.targets[0], ast.Tuple) and U(n.targets[0].elts[1]) == fdata and "IWACompressedChunk.from_buffer(" in U(n.value) for n in wl[0].body) \
+        and any(isinstance(c, ast.Call) and last_attr(c.func) == "append" for c in ast.walk(wl[0]))
     rep.ob("C05.R4", ffb, "IWAFile.from_buffer consumes the whole buffer", ok, "", key="C05.R4@file:loop")
     ftb = repo.func("iwafile.py", "IWAFile.to_buffer")
-    ok = U(ftb).replace(" ", "").endswith("returnb''.join([chunk.to_buffer()forchunkinself.chunks])")
-    rep.ob("C05.R4", ftb, "IWAFile.to_buffer joins chunk buffers in order", ok, "", key="C05.R4@file:join")
-    # unknown fields: ProtobufPatch keeps partial serialisation
+    fret = [n for n in body_walk(ftb) if isinstance(n, ast.Return) and n.value is not None]
+    sq = None
+    if fret and isinstance(fret[-1].value, ast.Call) and last_attr(fret[-1].value.func) == "join":
+        sq = joined_sequence(ftb, fret[-1].value.args[0])
+    ok = sq == [("each", "_.to_buffer()", "self.chunks")]
+    rep.ob("C05.R4", ftb, "IWAFile.to_buffer joins chunk buffers in order", ok, "" if ok else f"{sq}", key="C05.R4@file:join")
     pp = repo.func("iwafile.py", "ProtobufPatch.SerializeToString")
     rep.ob("C05.R3", pp, "patch messages are re-serialised from their decoded data", "self.data.Serialize" in U(pp), "", key="C05.R3@patch")
     rep.floor("C05.R1", 10)
     rep.floor("C05.R2", 4)
     rep.floor("C05.R3", 4)
     rep.floor("C05.R4", 9)
+
+
+def _anc(n, stop=None):
+    p = getattr(n, "_parent", None)
+    while p is not None and p is not stop:
+        yield p
+        p = getattr(p, "_parent", None)
 
 
 VARIANTS = [
@@ -344,12 +497,16 @@ VARIANTS = [
     M("length-big-endian-writer", "iwafile.py", 'struct.pack("<I", len(payload))[:3]', 'struct.pack(">I", len(payload))[:3]', "C05.R1"),
     M("reader-advance-off", "iwafile.py", "            chunk = data[4 : 4 + length]\n            data = data[4 + length :]", "            chunk = data[4 : 4 + length]\n            data = data[3 + length :]", "C05.R1"),
     M("sniffer-total-off", "iwafile.py", "length += segment_length + 4", "length += segment_length + 3", "C05.R1"),
-    M("header-before-lengths", "iwafile.py",
+    M("objects-reversed", "iwafile.py",
       "        return b\"\".join(\n            [_VarintBytes(self.header.ByteSize()), self.header.SerializeToString()]\n            + [obj.SerializeToString() for obj in self.objects],\n        )",
       "        return b\"\".join(\n            [_VarintBytes(self.header.ByteSize()), self.header.SerializeToString()]\n            + [obj.SerializeToString() for obj in reversed(self.objects)],\n        )", "C05.R3"),
     M("single-chunk-parse", "iwafile.py", 'data = b"".join(cls._decompress_all(data))', "data = next(cls._decompress_all(data))", "C05.R4"),
     M("message-cursor-stale", "iwafile.py", "            payloads.append(output)\n            n += message_info.length", "            payloads.append(output)\n            n += len(message_payload) - 0 * message_info.length", "C05.R4"),
-    M("pad-low-side", "iwafile.py", 'length = unpack("<I", bytes(header[1:]) + b"\\x00")[0]', 'length = unpack("<I", b"\\x00" + bytes(header[1:]))[0]', "C05.R1", count=2),
+    M("pad-low-side", "iwafile.py", 'unpack("<I", bytes(header[1:]) + b"\\x00")[0]', 'unpack("<I", b"\\x00" + bytes(header[1:]))[0]', "C05.R1", count=2),
+    M("length-refresh-grow-only", "iwafile.py", "                if object_length != provided_length:\n", "                if object_length > provided_length:\n", "C05.R3"),
+    M("header-cut-off-by-one", "iwafile.py", "    msg_buf = buf[n : n + msg_len]\n    n += msg_len", "    msg_buf = buf[n : n + msg_len]\n    n += msg_len + 1", "C05.R4"),
+    M("reader-two-byte-length", "iwafile.py", '\n            length = unpack("<I", bytes(header[1:]) + b"\\x00")[0]', '\n            length = int.from_bytes(header[1:3], "little")', "C05.R1"),
     T("named-chunk-constant", "iwafile.py", "            payloads.append(snappy.compress(uncompressed[:65536]))\n            uncompressed = uncompressed[65536:]",
       "            payloads.append(snappy.compress(uncompressed[: 1 << 16]))\n            uncompressed = uncompressed[1 << 16 :]"),
+    T("reader-from-bytes", "iwafile.py", '\n            length = unpack("<I", bytes(header[1:]) + b"\\x00")[0]', '\n            length = int.from_bytes(header[1:4], "little")'),
 ]
